@@ -167,7 +167,9 @@ def gamma2(tier, seed):
         # repeated group in trailing and leading position (no sentinel on one side)
         out.append({"id": f"g2/{kind}/trailing", "doc": doc_of(["push", mk({"min": 1, "max": 2})]), "feature": feat})
         out.append({"id": f"g2/{kind}/leading", "doc": doc_of([mk(2), "ret"]), "feature": feat + ("_leading" if kind == "not" else "")})
-        out.append({"id": f"g2/{kind}/after_optional", "doc": doc_of([{"push": {"times": {"min": 0, "max": 1}}}, mk({"min": 1, "max": 2}), "ret"]), "feature": feat + ("_leading" if kind == "not" else "")})
+        if tier == "thorough" or kind in ("item", "item_sib", "not", "or1", "and1", "anyorder1"):
+            # (multi-child groups after an optional item take z3 minutes: thorough tier only)
+            out.append({"id": f"g2/{kind}/after_optional", "doc": doc_of([{"push": {"times": {"min": 0, "max": 1}}}, mk({"min": 1, "max": 2}), "ret"]), "feature": feat + ("_leading" if kind == "not" else ""), "timeout_ms": 240000 if tier == "thorough" else 60000})
     # one YAML node used twice (anchor/alias: the loader hands the SAME mapping object to the compiler twice, which
     # yaml.safe_dump produces for a shared python object): both uses keep their repetition
     for kind, mk, plain in bodies:
@@ -353,6 +355,12 @@ def gamma4(tier, seed):
         args = args[:5] + [a for a in args if a[0] in ("notnot_and", "and_ranged")]
     for an, X in args:
         N = {"$not": [X]}
+        if an in ("and_ranged", "or_ranged_in_and") and tier == "quick":
+            # heavy arguments: the three basic positions only (repeated / doubled variants in the thorough tier)
+            out.append({"id": f"g4/leading/{an}", "doc": doc_of([N, "call"]), "feature": "not_leading"})
+            out.append({"id": f"g4/inner/{an}", "doc": doc_of(["push", N, "call"]), "feature": "not_inner"})
+            out.append({"id": f"g4/trailing/{an}", "doc": doc_of(["push", N]), "feature": "not_trailing"})
+            continue
         out.append({"id": f"g4/leading/{an}", "doc": doc_of([N, "call"]), "feature": "not_leading"})
         out.append({"id": f"g4/inner/{an}", "doc": doc_of(["push", N, "call"]), "feature": "not_inner"})
         out.append({"id": f"g4/trailing/{an}", "doc": doc_of(["push", N]), "feature": "not_trailing"})
